@@ -349,9 +349,10 @@ def coq_eval(prop_id, module, terms, header="", shard_size=150, timeout=900):
         name = "cases_%s_%d" % (prop_id, k)
         path = os.path.join(d, name + ".v")
         with open(path, "w") as f:
+            f.write("From Coq Require Import String.\n")
             f.write("From OCV Require Import Base.Prelude %s.\n" % module)
             f.write(header + "\n")
-            f.write("Open Scope Z_scope.\n")
+            f.write("Open Scope string_scope.\nOpen Scope Z_scope.\n")
             f.write("Definition cases := [\n  ")
             f.write(";\n  ".join(shard))
             f.write("\n].\n")
